@@ -91,6 +91,10 @@ type World struct {
 	WriteDelay func(n int) time.Duration
 	// OnWrite is called (inside the write step) after a frame was logged
 	OnWrite func(f *Frame)
+	// OnOpen is called when a packet socket has been created and bound, before the program can attach
+	// a filter to it: frames injected from here arrive in the window in which an AF_PACKET socket
+	// already queues everything the interface sees
+	OnOpen func(t *TPacket)
 
 	// KernelBPF: every filter verdict of the BPF VM (accepted? how many bytes kept?) is compared with
 	// the running kernel's classic-BPF engine: the same instructions are attached (SO_ATTACH_FILTER)
@@ -138,6 +142,9 @@ func NewTPacket(opts ...interface{}) (*TPacket, error) {
 	t.id = len(W.Socks)
 	W.Opened = append(W.Opened, t.iface)
 	W.Socks = append(W.Socks, t)
+	if W.OnOpen != nil {
+		W.OnOpen(t)
+	}
 	return t, nil
 }
 
